@@ -225,7 +225,8 @@ Definition proc_dispatch (s : bc) (p : packet) : option bc :=
   | Publish _ m id =>
       if m_qos m =? 0 then Some (set_pp s (PPub0 m))
       else if m_qos m =? 1 then Some (set_pp s (PPub1W id m))
-      else Some (set_pp s (PPub2W p))
+      else if m_qos m =? 2 then Some (set_pp s (PPub2W p))
+      else None                                  (* the decoder never yields a QoS above 2 *)
   | Puback id | Pubcomp id => Some (set_pp s (PAckDel id))
   | Pubrec id => Some (set_pp s (PRecSave id))
   | Pubrel id => Some (set_pp s (PRelLookup id))
